@@ -15,6 +15,7 @@ from ..schema import norm_name, render, schema_ast
 from ..schema_info import Schema
 
 LEVEL = "translation_validation"
+PROGRAM_TARGETS = ("tests_inputs_corpus", "grammar_schemas", "known_finding_probes")
 QUICK_SHARDS = 8
 THOROUGH_SHARDS = 16
 RULE = (
